@@ -1044,7 +1044,11 @@ class Interp:
                         return self.models.s_implies(self, [x, False], {})
                     raise
                 return self.models.s_implies(self, [x, y], {})
-        f = self.eval(n.func, env)
+        if isinstance(n.func, ast.Attribute) and isinstance(n.func.value, ast.Call) and isinstance(n.func.value.func, ast.Name) \
+                and n.func.value.func.id == 'super' and not n.func.value.args:
+            f = self.super_method(n.func.attr, env)
+        else:
+            f = self.eval(n.func, env)
         args = []
         for a in n.args:
             if isinstance(a, ast.Starred):
@@ -1061,6 +1065,24 @@ class Interp:
             else:
                 kwargs[kw.arg] = self.eval(kw.value, env)
         return self.call(f, args, kwargs, node=n)
+
+    def super_method(self, name, env):
+        """super().name inside a method: the next definition after the defining class in the MRO of that class;
+        object.__init__ (no repository base defines it) does nothing"""
+        ok, ci = env.lookup('__class__')
+        ok2, slf = env.lookup('__self__')
+        if not ok or not ok2 or slf is None:
+            raise Unsupported('super() outside a method')
+        mro = self.repo.mro(self.class_of(slf) or ci) if isinstance(slf, Obj) else self.repo.mro(ci)
+        names = [c.name for c in mro]
+        start = names.index(ci.name) + 1 if ci.name in names else len(mro)
+        for c in mro[start:]:
+            if name in c.methods:
+                m = self.repo.module(c.mod)
+                return Func(c.methods[name], Env(m), m, self_obj=slf, cls=c, name=f'{c.mod}.{c.name}.{name}')
+        if name == '__init__':
+            return Builtin('object.__init__', lambda it, a, k: None)
+        raise Unsupported(f'super().{name}: no base class of {ci.name} in the repository defines it')
 
     def call(self, f, args, kwargs, node=None):
         if isinstance(f, Builtin):
@@ -1185,6 +1207,20 @@ class Interp:
             c = self.engine.callee_contract(qual, self)
             if c is not None:
                 vals = self.bind(node, args, kwargs, self.defaults_env(f), f.self_obj)
+                # a summary stated for array arguments says nothing about a call with a scalar: the body is interpreted
+                for pn, b in c.params.items():
+                    rc = getattr(b, 'recipe', None)
+                    if rc and rc[0] in ('vec', 'vec1', 'vec_len') and pn in vals and \
+                            isinstance(vals[pn], (SV, int, Fraction)) and not isinstance(vals[pn], bool):
+                        rr = getattr(c.returns, 'recipe', None) if c.returns is not None else None
+                        if c.trusted and c.pure and rr and rr[0] in ('vec', 'vec_len') and not c.ensures:
+                            # an assumed pure per-element coefficient evaluated at one point: some real number
+                            from .vals import fresh as _fresh
+                            return SV(_fresh(qual.rsplit('.', 1)[-1] + '_at_point', z3.RealSort()))
+                        if not c.trusted:
+                            c = None
+                            break
+            if c is not None:
                 if c.pure:
                     # a pure function applied to the same argument objects yields the same result object
                     if c.pure_on:
